@@ -73,7 +73,10 @@ pub fn gen_long_bspec(rng: &mut Rng, min_width_one: bool, max_n: u32) -> BSpec {
 	};
 	let pattern = if huge_block { 0 } else { rng.below(7) as u8 };
 	let n = if matches!(pattern, 2 | 3 | 6) { n.min(400) } else { n };
-	let codec = container::gen_codec(rng, false);
+	let codec = match container::gen_codec(rng, false) {
+		Codec::Zstd(l) if l > 9 => Codec::Zstd(1 + l % 9),
+		c => c,
+	};
 	let opts = WriteOpts {
 		seed: rng.next_u64(),
 		partition: if huge_block {
@@ -211,7 +214,7 @@ impl Prop for C06 {
 	fn rule(&self) -> &'static str {
 		"Direction A: a writer history (as in C05, with user metadata incl. empty and non-UTF-8 values) runs through the real writer; the reference parser (written from the specification; raw deflate, bzip2, xz, zstd frame, snappy+big-endian CRC-32 of uncompressed data through the codec libraries' own APIs; reference datum decoder) must accept the file and recover magic, avro.schema (= Schema::json(), and JSON-equal to the simulator's schema), avro.codec, user metadata, sync, per-block counts and exactly the written values. \
 		 Direction B: the reference writer produces a file under PRNG-chosen free choices (block partition incl. 1 value per block, metadata key order, metadata map split in several blocks / negative-count block, array/map values split into blocks with negative counts, absent avro.codec for null) and the real reader (slice and stream kinds) must yield the values and user metadata. \
-		 An evaluation is one reference parse or one complete crate read. Distinct = distinct (direction, codec, block count bucket, writer free-choice bits, reader kind class). Schema texts carry attributes the crate must preserve (non-ASCII, escapes, a string ending in an escaped backslash, numbers in other notations, unknown logical types, primitives in long form); user metadata reaches 340 entries, 70 000-byte values and 8 200-byte keys; one scenario in thirty is deliberately large-scale (see C05)."
+		 An evaluation is one reference parse or one complete crate read. Distinct = distinct (direction, codec, block count bucket, writer free-choice bits, reader kind class). One scenario in 150 is a LONG file (direction A: as in C05; direction B: 250-1200 values one or a few per block, or more than 65 535 objects in one block, and runs of 1 to 20 000 consecutive blocks that hold no objects). Schema texts carry attributes the crate must preserve (non-ASCII, escapes, a string ending in an escaped backslash, numbers in other notations, unknown logical types, primitives in long form); user metadata reaches 340 entries, 70 000-byte values and 8 200-byte keys; one scenario in thirty is deliberately large-scale (see C05)."
 	}
 	fn assumptions(&self) -> Vec<String> {
 		vec![
@@ -240,7 +243,7 @@ impl Prop for C06 {
 			push_ops: true,
 			scale: 2,
 		};
-		if rng.chance(1, 300) {
+		if rng.chance(1, 150) {
 			// LONG files, both directions
 			let dir = if run % 2 == 0 { Dir::A(container::gen_long_spec(rng, &profile, 140_000)) } else { Dir::B(gen_long_bspec(rng, false, 140_000)) };
 			return Scn { dir, rk_seed: rng.next_u64(), only_kind: None, apache: true };
